@@ -60,6 +60,22 @@ def generate(ctx):
             yield 'geo', {'b': b, 'T': T, 'R': [287.0, 1.0, 0.28][r % 3]}
     for K in ([1, 2, 3, 7] if ctx.tier == 'quick' else [1, 2, 3, 5, 6, 7, 12, 24, 37]):
         yield 'equidistant', {'K': K}
+    # accepted level sets whose end points are only CLOSE to 0 and 1 (float32-accumulated thicknesses, six-digit tables):
+    # every operator must keep following its documented formula (surface at log sigma = 0, thickness = diff of boundaries)
+    ends = [(0.0, 1.0000001), (0.0, 0.999998), (5e-9, 1.000005), (0.0, 0.9999925), (-4e-9, 1.0 + 2.0 ** -30)]
+    for i, (b0, b1) in enumerate(ends if ctx.tier != 'quick' else ends[:4]):
+        K = [2, 3, 5, 4, 7][i]
+        b = util.uneven_boundaries(rng, K); b[0] = b0; b[-1] = b1; b = b.tolist()
+        ctx.count('near-end level set')
+        x = util.small_rationals(rng, (K, 2)).tolist(); w = util.small_rationals(rng, (K - 1, 2)).tolist()
+        yield 'accept', {'b': b}
+        yield 'derived', {'b': b}
+        yield 'cumint', {'b': b, 'x': x, 'axis': 0}
+        yield 'cumlog', {'b': b, 'x': x, 'axis': 0}
+        yield 'cdiff', {'b': b, 'x': x, 'axis': 0, 'a': 1.25, 'c': -0.5}
+        yield 'cadv', {'b': b, 'x': x, 'w': w, 'wshape': [K - 1, 2], 'axis': 0, 'bv': False}
+        yield 'geo', {'b': b, 'T': util.small_rationals(rng, (K, 2, 2), 200, 300, 1).tolist(), 'R': 287.0}
+        yield 'long_axis', {'b': b, 'x': x, 'T': util.small_rationals(rng, (K, 1, 2), 200, 300, 1).tolist(), 'R': 287.0}
     # long vertical axes: size thresholds in the cumulative-sum strategies.  The exact-rational model is quadratic in K
     # (minutes at K = 1000), so these cases are decided by oracles: independent numpy references and strategy agreement.
     for K in ([130, 520, 1030] if ctx.tier == 'quick' else [70, 130, 260, 520, 1030, 2050]):
